@@ -38,8 +38,8 @@ func init() {
 				{Name: "cold-start", N: 1, Serial: true, Run: c03Cold},
 				{Name: "contract-liveness", N: 1, Run: c03Liveness},
 				{Name: "all-masks-all-nodes", N: (1 << uint(hmax+1)) - 1, Run: c03AllSmall},
-				{Name: "large-heights", N: 20 * c.Pick(200, 20000), Run: c03Large},
-				{Name: "related-mask-sequences", N: c.Pick(600, 60000), Run: c03Sequences},
+				{Name: "large-heights", Env: 20, N: 20 * c.Pick(200, 20000), Run: c03Large},
+				{Name: "related-mask-sequences", Env: 10, N: c.Pick(600, 60000), Run: c03Sequences},
 			}
 		},
 		Merge: func(tier string, rs map[string]*mon.Result) []mon.Violation {
